@@ -3,10 +3,11 @@
 Proofs: coq/theories/Props/C02.v (modification-log completeness, expunge
 records sticky, convergence after NOOP at quiescence over all traces of the
 Store model).
-Correspondence: the same kind of multi-session traces as C01 with histories
-biased towards touching messages another session has expunged and .SILENT
-stores; every step compared with the model inside Coq (including the
-modification log of every mailbox).
+Correspondence: the same kind of multi-session traces as C01 (dict and maildir
+backends) with histories biased towards touching messages another session has
+expunged and .SILENT stores; every step compared with the model inside Coq
+(including the modification log of every mailbox, the maildir files, and the
+flags each shadow client holds against the model's client).
 Monitor: at quiescent points every connection issues NOOP and its shadow
 client (message list, flags it was told) is compared with what a fresh probe
 session reports (harness/store_monitor.py).
@@ -112,7 +113,8 @@ RULE = ('a case is one multi-session history: 2-4 connections on the dict backen
         'weighted towards STORE (35% .SILENT), EXPUNGE, MOVE on sequence sets biased to messages '
         'another connection has expunged; every 2-5 steps and at the end every connection issues NOOP '
         'and its shadow client is compared with a fresh probe session; plus all interleavings of 2 '
-        'connections x 3 commands (quick: a sample of program pairs); non-trivial = the step produced '
+        'connections x 3 commands (quick: a sample of program pairs); plus histories and schedules '
+        'on the maildir backend with the same comparison and monitors; non-trivial = the step produced '
         'EXPUNGE/EXISTS/FETCH data')
 
 
@@ -123,7 +125,7 @@ def run(ctx) -> None:
     clauses = SC.C02_CLAUSES
     evals = [base.section_witnesses(ctx, clauses, WITNESSES), section_random(ctx, clauses)]
     evals += base.section_exhaustive(ctx, clauses)
-    base.section_maildir(ctx, clauses)
+    evals += base.section_maildir(ctx, clauses, WITNESSES)
     for ev in evals:
         ev.finish()
 
